@@ -160,6 +160,9 @@ def run_parse(repo: Repo, rel: str, cls: str, params: dict, entry: dict, unroll:
     if len(names) != 3:
         raise AnalysisError(f"{construct}: expected (self, state, pairs) parameters, found {names}")
     st, out = entry_state(flow, entry, {names[0]: "self", names[1]: "state", names[2]: "pairs"})
+    from .flow import local_names
+
+    st.env["__locals__"] = local_names(fn)
     exits = flow.run(fn.body, st)
     variant = _variant(params, entry)
     return [summarise(flow, e, out, "parse", construct, variant, entry) for e in exits], flow
